@@ -216,3 +216,36 @@ func ZZ_C07_unknown() {
 		}
 	}
 }
+
+// ZZ_C07_write_pool: `write` on a key that the caller holds only in the raw key-value pool
+// (state entries not attributed at import): when the call ends in a panic (value range not
+// readable) or answers FULL (the caller cannot afford the new value), the service state - the
+// raw pool included - is exactly what it was.
+//zz:workers=8
+func ZZ_C07_write_pool() {
+	zzWithRawPool = true
+	defer func() { zzWithRawPool = false }()
+	in, regs := zzRichCtxN(1)
+	in.VM.Memory.Pages[16].Value[66] = 'p' // key of the pooled storage entry
+	poor := zzvt.Bool("callerCannotAfford")
+	if poor {
+		// drop the caller's balance below any threshold, in every copy the call may consult
+		a := in.Addition.ResultContextX.PartialState.ServiceAccounts[zzCaller]
+		a.ServiceInfo.Balance = 0
+		in.Addition.ResultContextX.PartialState.ServiceAccounts[zzCaller] = a
+		in.Addition.ServiceAccount.ServiceInfo.Balance = 0
+		regs[7], regs[8], regs[9], regs[10] = zzGuestBase+66, 1, zzGuestBase+100, 40
+	} else {
+		regs[7], regs[8], regs[9], regs[10] = zzGuestBase+66, 1, 0x30000, 1 // value range unmapped
+	}
+	snap := zzSnapCtx(in.Addition.ResultContextX)
+	var out OmegaOutput
+	zzvt.Assert(!zzvt.Try(func() { out = write(in) }), "write-does-not-crash")
+	if poor {
+		zzvt.Assert(out.ExitReason == ExitContinue && regs[7] == FULL, "unaffordable-write-is-FULL")
+		snap.sameAs(out.Addition.ResultContextX, "FULL-leaves-state-and-raw-pool-unchanged")
+	} else {
+		zzvt.Assert(out.ExitReason == ExitPanic, "unreadable-value-panics")
+		snap.sameAs(out.Addition.ResultContextX, "panic-leaves-state-and-raw-pool-unchanged")
+	}
+}
